@@ -18,6 +18,7 @@
 /// let values = vec![1.0, 2.0, 3.0];
 /// assert!(!has_nan(&values));
 /// ```
+#[cfg_attr(kani, kani::ensures(|r: &bool| crate::verif_kani::domain::post_has_nan(values, *r)))]
 pub fn has_nan(values: &[f64]) -> bool {
     values.iter().any(|v| v.is_nan())
 }
@@ -35,6 +36,7 @@ pub fn has_nan(values: &[f64]) -> bool {
 /// ```
 ///
 /// ```
+#[cfg_attr(kani, kani::ensures(|r: &bool| crate::verif_kani::domain::post_all_finite(values, *r)))]
 pub fn are_all_finite(values: &[f64]) -> bool {
     values.iter().all(|v| v.is_finite())
 }
@@ -57,6 +59,7 @@ pub fn are_all_finite(values: &[f64]) -> bool {
 /// let values = vec![1.0, 3.0, 2.0];
 /// assert!(!are_in_ascending_order(&values));
 /// ```
+#[cfg_attr(kani, kani::ensures(|r: &bool| crate::verif_kani::domain::post_ascending(values, *r)))]
 pub fn are_in_ascending_order(values: &[f64]) -> bool {
     values.windows(2).all(|w| w[0] <= w[1])
 }
@@ -79,6 +82,7 @@ pub fn are_in_ascending_order(values: &[f64]) -> bool {
 /// let values = vec![1.0, 3.0, 2.0];
 /// assert!(!are_in_descending_order(&values));
 /// ```
+#[cfg_attr(kani, kani::ensures(|r: &bool| crate::verif_kani::domain::post_descending(values, *r)))]
 pub fn are_in_descending_order(values: &[f64]) -> bool {
     values.windows(2).all(|w| w[0] >= w[1])
 }
